@@ -178,6 +178,7 @@ fn poly_inputs(a: i32, b: i32, positions: usize) -> Vec<(Poly, String)> {
             out.push((w, format!("onehot[{pos}]={v}")));
         }
     }
+    out.push(([0i32; 256], "all-zero".into()));
     out.push(([b; 256], "all=b".into()));
     out.push(([-a; 256], "all=-a".into()));
     out.push((core::array::from_fn(|i| if i % 2 == 0 { b } else { -a }), "alternating".into()));
@@ -339,6 +340,15 @@ fn main() {
             out
         });
         vec_group!(&format!("is_in_range:z:gamma1={g1}:in-range-inputs"), ins, |w: &Poly| hk::is_in_range(w, g1 - 1, g1));
+    }
+    // multi-polynomial calls where some polynomials are entirely zero
+    {
+        let dense: Poly = core::array::from_fn(|i| (i as i32 * 7919) % Q - Q / 2);
+        let combos: Vec<([Poly; 4], String)> = (0..16u32).map(|m| (core::array::from_fn(|j| if (m >> j) & 1 == 1 { dense } else { [0i32; 256] }), format!("nonzero-mask{m:04b}"))).collect();
+        vec_group!("ntt:4-polys:zero-polynomial-patterns", combos, |w: &[Poly; 4]| hk::ntt(w));
+        vec_group!("inv_ntt:4-polys:zero-polynomial-patterns", combos, |w: &[Poly; 4]| hk::inv_ntt(w));
+        vec_group!("to_mont:4-polys:zero-polynomial-patterns", combos, |w: &[Poly; 4]| hk::to_mont(w));
+        vec_group!("infinity_norm:4-polys:zero-polynomial-patterns", combos, |w: &[Poly; 4]| hk::infinity_norm(w));
     }
     // mat_vec_mul with a fixed public matrix and secret-like vectors
     {
